@@ -201,9 +201,9 @@ def cases(tier):
     cs = []
     boxes = BOXES[:4] if tier == "quick" else BOXES
     for box in boxes:
-        cs.append(dict(name=f"xover.box{box}", fn=h_xover, params=dict(box=list(box)), portfolio=True, oblig_timeout_s=400, separate=True, cores=3, weight=10, **R))
-        cs.append(dict(name=f"xover.p0.7.n3.box{box}", fn=h_xover, params=dict(box=list(box), n=3, probability=0.7), portfolio=True, oblig_timeout_s=400,
-                       separate=True, cores=3, weight=10, **R))
+        X = dict(portfolio=True, oblig_timeout_s=400, separate=True, cores=2, weight=10, decide_timeout_ms=3000, validate_paths=1)
+        cs.append(dict(name=f"xover.box{box}", fn=h_xover, params=dict(box=list(box)), **X, **R))
+        cs.append(dict(name=f"xover.p0.7.n3.box{box}", fn=h_xover, params=dict(box=list(box), n=3, probability=0.7), **X, **R))
         for which in ("lhs", "sobol"):
             cs.append(dict(name=f"scale.{which}.box{box}", fn=h_scale, params=dict(which=which, box=list(box)), portfolio=True, oblig_timeout_s=300, cores=3, **R))
     cs.append(dict(name="sample_normal", fn=h_sample_normal, params=dict(box=[-0.1, 0.2]), oblig_timeout_s=60, **R))
